@@ -27,6 +27,8 @@ def check_wave(fn, wave, ramppts, gmax, dgdt, dt, area):
     w = np.asarray(wave, dtype=np.float64).ravel()
     out = []
     tol = 1e-9
+    if w.size < 2 or not np.all(np.isfinite(w)):
+        return [("area", "no waveform returned for a positive area (%d samples, finite: %s)" % (w.size, bool(np.all(np.isfinite(w)))))]
     if w[0] != 0 or w[-1] != 0:
         out.append(("ends", "first/last sample %g/%g not zero" % (w[0], w[-1])))
     if fn == "trap_grad":
@@ -91,7 +93,7 @@ def run(ctx):
                 bad = check_wave(st["fn"], wave, ramppts, gmax, dgdt, dt, area)
                 for kind, d in bad:
                     r.violations.append(core.Violation(["C20"], "trap", dict(key, kind=kind), "%s(area=%g, gmax=%g, dgdt=%g, dt=%g): %s" % (st["fn"], area, gmax, dgdt, dt, d), {"wave": np.asarray(wave).ravel()[:60].tolist()}))
-                if not st["tie"]:
+                if not st["tie"] and not bad:
                     w = np.asarray(wave).ravel()
                     L = 2 * (des["r"] + 1) + des["n"]
                     peak = float(frac(des["peak"])) * dgdt * dt
